@@ -216,7 +216,8 @@ def check_purity(s, rule="C02.3"):
         if name in SKIP_METHODS or name.startswith("_init") or name == "__init__":
             continue
         n_fn += 1
-        hits = [h for h in scan_function(P, m, qual, fn) if h.kind in ("forbidden-callee", "attribute-assignment", "global-state", "dict-access", "setattr", "constant-key", "item-assignment")]
+        hits = [h for h in scan_function(P, m, qual, fn) if h.kind in ("forbidden-callee", "attribute-assignment", "global-state", "dict-access", "setattr", "constant-key", "item-assignment", "memoization", "host-callback")
+                and not (h.kind == "host-callback" and m.name.startswith("lerax.compatibility"))]
         s.ob(rule, qual.replace("lerax.", ""), not hits, "no ambient effect: no clock/RNG/environment callee, no attribute, item or global mutation, no constant key", P.loc(m, fn), key="ambient-effect",
              detail="; ".join(str(h) for h in hits), necessary_for="signals depend only on explicit arguments, not on Python-side state")
     for m in P.modules.values():
